@@ -23,6 +23,13 @@
 //        suspend / suspend+write / write+suspend / remove another client (whose read event is selected in the same batch), with or without peer data that was made
 //        pending before the poll round whose send completes the drain (an event carrying read + write readiness). Enumerates action x pending x size class x
 //        every outcome sequence up to length --scale. rand draws the same two scripts (mid-drain writes, onWrite actions) for half of its cases from a separate stream.
+//        hangup-exh: peer-side events while the client is SUSPENDED: the peer sends data / shuts down its write side (FIN) / shuts down both directions / closes / resets
+//        (SO_LINGER 0) / closes with unread data - on a pair (AF_UNIX), an accepted and a connected (loopback TCP) client, with an empty send backlog (the client is then
+//        registered in the poll set without any event) or a pending one (first send partial or would-block, optionally more would-blocks), inbound bytes pending or not,
+//        suspend before or after the write; then the loop runs (no onRead may be delivered; a hung-up client that is registered without events makes the unchanged loop
+//        spin on EPOLLHUP without dispatching anything: the harness treats a poll round that dispatched nothing as an idle point - counted in loop rounds, never in time),
+//        then: resume / run again + resume / write + resume / leave to the end of the case. After resume the pending bytes and the hang-up must be delivered (onRead, all
+//        inbound bytes when the close was graceful, onClosed). Enumerates origin x event x backlog x pending x order x follow-up, --scale repetitions with fresh sizes.
 #include "srv_util.hpp"
 #include <nstd/Socket/Server.hpp>
 #include <nstd/Socket/Socket.hpp>
@@ -48,6 +55,12 @@ enum FreshAct { F_NONE, F_WRITE, F_SUSPEND, F_SUSPEND_WRITE, F_WRITE_SUSPEND, F_
 static const char* const FNAME[] = { "nothing", "write", "suspend", "suspend+write", "write+suspend", "write+write" };
 enum WriteAct { W_NONE, W_WRITE, W_SUSPEND, W_SUSPEND_WRITE, W_WRITE_SUSPEND, W_REMOVE_OTHER, NWACT };   // what the onWrite handler does (drain-exh, rand)
 static const char* const WNAME[] = { "nothing", "write", "suspend", "suspend+write", "write+suspend", "remove-other" };
+enum PeerEv { E_DATA, E_SHUT_WR, E_SHUT_RDWR, E_CLOSE, E_RESET, E_CLOSE_UNREAD, NPEEREV };   // what the peer does while the client is suspended (hangup-exh)
+static const char* const ENAME[] = { "data", "shutdown-wr", "shutdown-rdwr", "close", "reset", "close-with-unread-data" };
+enum Backlog { B_NONE, B_PENDING, B_PENDING_EAGAIN, NBACK };
+static const char* const BNAME[] = { "no-backlog", "backlog", "backlog+eagain" };
+enum Follow { U_RESUME, U_RUN_RESUME, U_WRITE_RESUME, U_LEAVE, NFOLLOW };
+static const char* const UNAME[] = { "resume", "run-again+resume", "write+resume", "left-to-end-of-case" };
 struct Op { int kind; int tgt; long n; int post; };
 
 struct Cm;
@@ -69,6 +82,8 @@ struct Cm {
   long midLeft; int wAct; bool wActArmed, pendAtDrain, pendScripted, otherInjected; int pendOther; long wSize; int wPost; long partialDrainsOfBacklog, midWritesOfBacklog;
   // model of the send Buffer's policy (capacity, front offset, size): steers the sizes of the mid-drain writes and feeds coverage counters, never a verdict
   u64 bufC, bufOff, bufN;
+  // hangup-exh: the peer no longer receives (closed / shut down both directions): what is handed to the OS from then on can never be verified at the peer
+  bool peerGone; long sendCalls;
   u64 backlog() const { return out.total(inWrite) - S; }
 };
 
@@ -82,6 +97,8 @@ static int g_venue = V_OUT;
 static u64 g_fp = 0;
 static long g_nonfull = 0, g_drains = 0, g_frontOffsetAppends = 0, g_onWriteActs = 0;
 static u8* g_tmp = 0; enum { TMPSZ = 1 << 17 };
+// hangup-exh: did the library dispatch anything (callback, send, recv) between two epoll_wait calls?
+static bool g_hangupWorld = false; static long g_progress = 0, g_progressAtLeave = 0; static int g_lastBatchN = 0;
 
 static Cm* byFd(int fd) { int t = ns::tagOf(fd); return t >= 0 && (size_t)t < g_cl.n ? g_cl[(size_t)t] : 0; }
 
@@ -175,6 +192,7 @@ static long hSendPlan(int fd, const void* buf, size_t len, int* err) {
 static void hSendDone(int fd, const void* buf, size_t len, long ret, int err) {
   (void)buf;
   Cm* m = byFd(fd); if (!m) return;
+  ++g_progress; ++m->sendCalls;
   hist.addf("    send(client%d, len=%zu, %s) -> %ld%s%s\n", m->id, len, m->inWrite ? "direct" : "backlog", ret, ret < 0 ? " errno=" : "", ret < 0 ? strerror(err) : "");
   if (!(g_kernel && m->origin != 0)) g_fp = mix(g_fp, (u64)(ret + 7) * 31 + (m->inWrite ? 1 : 0));   // real kernel on TCP: the split varies with ACK timing, not part of the case identity
   if (ret > 0) {
@@ -215,7 +233,19 @@ static void hSendDone(int fd, const void* buf, size_t len, long ret, int err) {
 }
 
 static void hDrain(int fd) { Cm* m = byFd(fd); if (m) drainPeer(m); }
-static void hRecvDone(int fd, const void* buf, size_t len, long ret, int err) { (void)buf; (void)len; Cm* m = byFd(fd); if (!m) return; m->lastRecvRet = ret; m->lastRecvErr = err; cnt("recv_calls"); }
+static void hRecvDone(int fd, const void* buf, size_t len, long ret, int err) { (void)buf; (void)len; Cm* m = byFd(fd); if (!m) return; ++g_progress; m->lastRecvRet = ret; m->lastRecvErr = err; cnt("recv_calls"); }
+
+static int hIdle(int epfd, int timeout, long elapsed, long* adv);
+// a live client that is suspended, for which neither read nor write readiness is requested from the poll set (epoll_ctl boundary) and whose socket the kernel reports
+// as hung up / in error / at end of stream: epoll reports EPOLLHUP / EPOLLERR for it in every round although nothing was requested
+static bool noInterest(unsigned mask) { return mask == 0xffffffffu || !(mask & (EPOLLIN | EPOLLOUT)); }
+static Cm* hungUpUnregisteredClient() {
+  for (size_t i = 0; i < g_cl.n; ++i) {
+    Cm* m = g_cl[i];
+    if (!m->removed && m->suspended && noInterest(ns::epollMask(m->fd)) && (su::pollNow(m->fd, POLLRDHUP) & (POLLHUP | POLLERR | POLLRDHUP))) return m;
+  }
+  return 0;
+}
 
 static void hWaitEnter(int epfd, int timeout) {
   (void)epfd; (void)timeout;
@@ -225,6 +255,12 @@ static void hWaitEnter(int epfd, int timeout) {
   for (size_t i = 0; i < g_cl.n; ++i) {
     Cm* m = g_cl[i]; m->inBatch = false;
     if (m->pendingOnWrite && !m->removed) fail("Server.Client.onWrite/missing-after-drain", "client %d: the backlog drained (send log) but the loop polls again without having called onWrite", m->id);
+  }
+  // hangup-exh: the previous poll round reported events, the library dispatched nothing (no callback, no send, no recv) and polls again: with a hung-up suspended client
+  // that is registered without events this repeats forever (the kernel keeps reporting EPOLLHUP) - for the harness this is an idle point: judge, then interrupt
+  if (g_hangupWorld && g_lastBatchN > 0 && g_progress == g_progressAtLeave && hungUpUnregisteredClient()) {
+    cnt("poll_rounds_that_dispatched_nothing");
+    hIdle(epfd, timeout, 0, 0);
   }
   // scripted: peer data is made pending just before the poll round whose send will complete the drain (the event then carries read AND write readiness);
   // for "remove-other" the other client's read event is put into the same batch
@@ -249,6 +285,7 @@ static void hWaitEnter(int epfd, int timeout) {
 
 static void hWaitLeave(int epfd, int n, struct epoll_event* ev) {
   (void)epfd;
+  g_lastBatchN = n; g_progressAtLeave = g_progress;
   int k = 0;
   for (int i = 0; i < n; ++i) {
     void* p = ev[i].data.ptr; if (!p) continue;
@@ -462,6 +499,7 @@ static void execOp(Cm* self, const Op& op) {
 
 static void callbackPrologue(Cm* m, const char* name) {
   if (!g_inRun) fail("Server.Client/callback-outside-run", "%s for client %d while run() is not executing", name, m->id);
+  ++g_progress;
   if (m->removed) { char key[96]; snprintf(key, sizeof key, "Server.remove(Client)/%s-after-remove", name); fail(key, "%s delivered to client %d after remove() returned", name, m->id); }
   for (size_t i = 0; i < g_cl.n; ++i) {
     Cm* o = g_cl[i];
@@ -477,6 +515,7 @@ void CB::onRead() {
   callbackPrologue(m, "onRead");
   cnt("onRead"); ++m->onReadCount;
   hist.addf("  onRead(client%d)%s\n", m->id, m->suspended ? " SUSPENDED" : "");
+  if (m->suspended && m->peerClosed) fail("Server.Client.onRead/while-suspended/after-peer-hang-up", "onRead delivered to client %d between suspend() and resume(): its peer has %s (%llu inbound byte(s) pending, epoll registration mask 0x%x)", m->id, m->peerGone ? "closed / reset / shut down the connection" : "shut down its sending side", (unsigned long long)(m->inSent - m->inRead), ns::epollMask(m->fd));
   if (m->suspended) fail("Server.Client.onRead/while-suspended", "onRead delivered to client %d between suspend() and resume() (%llu inbound byte(s) pending)", m->id, (unsigned long long)(m->inSent - m->inRead));
   int saved = g_venue; g_venue = V_ONREAD;
   bool handled = false; int nops = 0;
@@ -550,7 +589,7 @@ static void settlePeer(Cm* m) {
 }
 
 static void pump() {
-  g_intrReq = false; g_inRun = true;
+  g_intrReq = false; g_inRun = true; g_lastBatchN = 0;
   setctx("Server.run"); hist.add("run()\n");
   g_srv->run();
   g_inRun = false; setctx("driver");
@@ -559,7 +598,7 @@ static void pump() {
   for (size_t i = 0; i < g_cl.n; ++i) {
     Cm* m = g_cl[i];
     if (!g_kernel || m->removed) { drainPeer(m); settlePeer(m); }
-    if (!g_kernel && m->peerGot != m->S) fail("Server.Client/peer-stream/incomplete", "client %d: %llu byte(s) were handed to the OS but the peer has received %llu", m->id, (unsigned long long)m->S, (unsigned long long)m->peerGot);
+    if (!g_kernel && !m->peerGone && m->peerGot != m->S) fail("Server.Client/peer-stream/incomplete", "client %d: %llu byte(s) were handed to the OS but the peer has received %llu", m->id, (unsigned long long)m->S, (unsigned long long)m->peerGot);
   }
 }
 
@@ -570,6 +609,7 @@ static Cm* newCm(int id, int origin) {
   m->out.salt = (u32)(id * 2 + 11); m->inSalt = (u32)(id * 2 + 12);
   m->midLeft = 0; m->wAct = W_NONE; m->wActArmed = m->pendAtDrain = m->pendScripted = m->otherInjected = false; m->pendOther = -1; m->wSize = 1; m->wPost = 0; m->partialDrainsOfBacklog = m->midWritesOfBacklog = 0;
   m->bufC = m->bufOff = m->bufN = 0;
+  m->peerGone = false; m->sendCalls = 0;
   return m;
 }
 
@@ -591,6 +631,7 @@ static Cm* addClient(int id) {
 static void beginWorld(int nclients) {
   ns::reset(); ns::mode = ns::VIRTUAL;
   g_planPos = 0; g_rounds = 0; g_intrReq = false; g_inRun = false; g_venue = V_OUT; g_fp = 0; g_nonfull = 0; g_drains = 0; g_frontOffsetAppends = 0; g_onWriteActs = 0;
+  g_hangupWorld = false; g_progress = g_progressAtLeave = 0; g_lastBatchN = 0;
   g_srv = new Server;
   if (g_kernel) g_srv->setSendBufferSize(1);   // the kernel rounds up to its minimum (4608 on this kernel): genuine partial sends and EAGAIN
   for (int i = 0; i < nclients; ++i) addClient(i);
@@ -627,7 +668,7 @@ static Server::Client::ICallback* freshClient(Server::Client& client, int pfd) {
   const char* cbn = f.origin == 1 ? "onAccepted" : "onConnected";
   if (!g_inRun) { char key[96]; snprintf(key, sizeof key, "Server/%s-outside-run", cbn); fail(key, "%s while run() is not executing", cbn); }
   for (size_t i = 0; i < g_cl.n; ++i) { Cm* o = g_cl[i]; if (o->pendingOnWrite && !o->removed) fail("Server.Client.onWrite/missing-after-drain", "client %d: the backlog drained but the next callback is %s, not onWrite", o->id, cbn); }
-  f.called = true;
+  f.called = true; ++g_progress;
   int id = (int)g_cl.n;
   Cm* m = newCm(id, f.origin);
   m->c = &client; m->pfd = pfd; m->fd = (int)client.getSocket().getFileDescriptor();
@@ -731,8 +772,8 @@ static void finalChecks() {
   for (size_t i = 0; i < g_cl.n; ++i) {
     Cm* m = g_cl[i];
     drainPeer(m); settlePeer(m);
-    if (m->peerGot != m->S) fail("Server.Client/peer-stream/incomplete", "client %d: %llu byte(s) were handed to the OS but the peer has received %llu", m->id, (unsigned long long)m->S, (unsigned long long)m->peerGot);
-    if (!m->backlogDropped && !m->removed && m->S != m->out.accepted) fail("Server.Client/peer-stream/backlog-never-sent", "client %d: accepted %llu byte(s), only %llu handed to the OS after the loop went idle", m->id, (unsigned long long)m->out.accepted, (unsigned long long)m->S);
+    if (!m->peerGone && m->peerGot != m->S) fail("Server.Client/peer-stream/incomplete", "client %d: %llu byte(s) were handed to the OS but the peer has received %llu", m->id, (unsigned long long)m->S, (unsigned long long)m->peerGot);
+    if (!m->backlogDropped && !m->removed && !m->peerGone && m->S != m->out.accepted) fail("Server.Client/peer-stream/backlog-never-sent", "client %d: accepted %llu byte(s), only %llu handed to the OS after the loop went idle", m->id, (unsigned long long)m->out.accepted, (unsigned long long)m->S);
     if (m->transitions != m->onWriteCount) fail("Server.Client.onWrite/count", "client %d: %ld backlog drain(s) but %ld onWrite call(s)", m->id, m->transitions, m->onWriteCount);
     cnt("streams_verified_end_to_end");
   }
@@ -906,6 +947,141 @@ static void drainCase(long idx) {
   endCase(fp, nontrivial);
 }
 
+// ---------------------------------------------------------------- peer-side events while the client is suspended
+// bounded real-time wait until the kernel shows the state the peer's action must produce on the client's socket (loopback TCP delivers asynchronously); never a verdict
+static void awaitAtClient(Cm* m, short ev, const char* what) {
+  if (su::pollNow(m->fd, ev)) return;
+  if (m->origin != 0) cnt("tcp_inflight_waits");
+  if (!su::waitReady(m->fd, ev)) harnessBug("client %d: the peer's %s never became visible on the client's socket (poll 0x%x)", m->id, what, su::pollNow(m->fd, POLLIN | POLLRDHUP));
+}
+
+static void hangupCase(long idx) {
+  Rng r(opts.seed, 1311, (u64)idx);
+  g_rng = &r; g_kernel = false;
+  long v = idx;
+  const int origin = (int)(v % 3); v /= 3;
+  const int ev = (int)(v % NPEEREV); v /= NPEEREV;
+  const int back = (int)(v % NBACK); v /= NBACK;
+  const int pend = (int)(v % 2); v /= 2;
+  const int order = (int)(v % 2); v /= 2;      // 0: suspend, then write   1: write, then suspend
+  const int follow = (int)(v % NFOLLOW); v /= NFOLLOW;
+  static const char* const ORIGIN[] = { "pair", "accepted", "connected" };
+  static const long HS[] = { 3, 7, 512, 1000, 4096 };   // small: what is sent towards a peer that has gone must fit into the socket buffer (the scripted send completes or fails, it never waits)
+  g_plan.clear();
+  if (back != B_NONE) {
+    static const int FIRST[] = { O_P1, O_PK, O_PN1, O_AGAIN };
+    g_plan.push(FIRST[r.below(4)]);
+    if (back == B_PENDING_EAGAIN) for (int k = 1 + (int)r.below(3); k > 0; --k) g_plan.push(O_AGAIN);
+    for (int k = (int)r.below(3); k > 0; --k) g_plan.push((int)r.below(5));
+  }
+  hist.addf("%s client, while it is suspended its peer does: %s; %s, %s, %s; afterwards: %s; plan:", ORIGIN[origin], ENAME[ev], BNAME[back], pend ? "inbound bytes pending" : "nothing inbound",
+            order ? "write then suspend" : "suspend then write", UNAME[follow]);
+  for (size_t i = 0; i < g_plan.n; ++i) hist.addf(" %s", ONAME[g_plan[i]]); hist.add("\n");
+  g_roundCap = 4000;
+  beginWorld(origin == 0 ? 1 : 0);
+  g_hangupWorld = true;
+  Cm* m = origin == 0 ? g_cl[0] : freshPhase(r, origin, F_NONE, 1, 1);
+  const bool tcp = origin != 0;
+  Cm* by = 0;
+  if (r.chance(1, 3)) by = addClient((int)g_cl.n);   // a bystander whose read event shares a poll round with whatever the kernel reports for the suspended client
+  Op sus = { K_SUSPEND, m->id, 0, 0 }, res = { K_RESUME, m->id, 0, 0 };
+  // inbound bytes that are there before the client is suspended
+  const bool pendBefore = pend && r.chance(1, 2);
+  bool suspendedInOnRead = false;
+  if (pendBefore) {
+    peerSend(m, 1 + (long)r.below(64));
+    if (back == B_NONE && r.chance(1, 3)) {   // the client's own onRead suspends it and leaves the bytes unread
+      m->qRead.push(sus); pump(); suspendedInOnRead = true; cnt("hangup_suspended_in_onRead");
+      if (!m->suspended) harnessBug("the scripted suspend in onRead did not run");
+    }
+  }
+  const bool writes = back != B_NONE || ev == E_CLOSE_UNREAD || r.chance(1, 2);
+  Op w = { K_WRITE, m->id, HS[r.below(5)], r.chance(2, 3) ? 1 : 0 };
+  if (!suspendedInOnRead && order == 0) execOp(m, sus);
+  if (writes && !m->removed) execOp(m, w);
+  if (!m->removed && !m->suspended) execOp(m, sus);
+  if (m->removed) harnessBug("client lost before the peer event");
+  if (pend && !pendBefore) peerSend(m, 1 + (long)r.below(64));
+  const bool backlogAtEvent = m->backlog() > 0;
+  if (back != B_NONE && !backlogAtEvent) cnt("hangup_backlog_degenerate");
+  // the peer has read everything that is on its way - except in the "unread data" variant
+  if (ev != E_CLOSE_UNREAD) {
+    drainPeer(m); settlePeer(m);
+    if (m->peerGot != m->S) fail("Server.Client/peer-stream/incomplete", "client %d: %llu byte(s) were handed to the OS but the peer has received %llu", m->id, (unsigned long long)m->S, (unsigned long long)m->peerGot);
+  } else if (tcp && m->S > m->peerGot && !su::pollNow(m->pfd, POLLIN)) { cnt("tcp_inflight_waits"); su::waitReady(m->pfd, POLLIN); }
+  const bool unreadAtPeer = m->S > m->peerGot;
+  const long readsBefore = m->onReadCount; const long sendsAtEvent = m->sendCalls;
+  setctxf("peer/%s", ENAME[ev]);
+  hist.addf("peer%d: %s%s (client suspended, backlog %llu, %llu inbound byte(s) unread)\n", m->id, ENAME[ev], unreadAtPeer ? " [unread bytes at the peer]" : "", (unsigned long long)m->backlog(), (unsigned long long)(m->inSent - m->inRead));
+  bool expectHup = false;
+  switch (ev) {
+  case E_DATA: peerSend(m, 1 + (long)r.below(64)); break;
+  case E_SHUT_WR: shutdown(m->pfd, SHUT_WR); m->peerClosed = true; break;
+  case E_SHUT_RDWR: shutdown(m->pfd, SHUT_RDWR); m->peerClosed = m->peerGone = m->peerEof = true; expectHup = !tcp; break;
+  case E_CLOSE: case E_CLOSE_UNREAD: case E_RESET:
+    if (tcp) su::lingerReset(m->pfd, ev != E_CLOSE);          // close: FIN (nothing unread at the peer); reset / unread data: RST
+    else if (ev == E_RESET) su::lingerReset(m->pfd, true);    // AF_UNIX ignores it: same as close
+    close(m->pfd); m->pfd = -1; m->peerClosed = m->peerGone = m->peerEof = true;
+    expectHup = !tcp || ev != E_CLOSE;
+    break;
+  default: break;
+  }
+  setctx("driver");
+  if (expectHup) awaitAtClient(m, POLLHUP | POLLERR, "hang-up");
+  else if (ev != E_DATA) awaitAtClient(m, POLLIN | POLLRDHUP, "end of stream");
+  else if (m->inSent > m->inRead) awaitAtClient(m, POLLIN, "data");
+  // what the kernel says about the suspended client's socket now, and what the library has asked the poll set for (epoll_ctl boundary)
+  {
+    const int st = su::pollNow(m->fd, POLLIN | POLLRDHUP); const unsigned mask = ns::epollMask(m->fd);
+    const bool hup = (st & (POLLHUP | POLLERR)) != 0;
+    cnt("peer_events_on_suspended_client");
+    if (hup) cnt("hangups_visible_on_suspended_client");
+    if (hup && noInterest(mask)) cnt("hangups_on_suspended_client_registered_without_events");
+    if (hup && !noInterest(mask)) cnt("hangups_on_suspended_client_with_backlog");
+    if (ev == E_CLOSE_UNREAD && unreadAtPeer) cnt("peer_closed_with_unread_bytes");
+    if (!hup && (st & POLLRDHUP)) cnt("end_of_stream_pending_on_suspended_client");
+    char nm[96]; snprintf(nm, sizeof nm, "%s/%s/%s/%s%s", ORIGIN[origin], ENAME[ev], backlogAtEvent ? "backlog" : "no-backlog", hup ? ((st & POLLERR) ? "err+hup" : "hup") : (st & POLLRDHUP) ? "rdhup" : (st & POLLIN) ? "readable" : "quiet", m->inSent > m->inRead ? "/inbound-pending" : "");
+    setItem("suspended_peer_events", nm);
+    hist.addf("  kernel: poll() on the client's socket 0x%x, epoll registration mask 0x%x\n", st, mask);
+  }
+  if (by) peerSend(by, 1 + (long)r.below(16));
+  pump();   // the online monitors judge: no onRead for the suspended client; a backlog goes out or fails (onClosed is then legitimate: a send failed)
+  if (!m->removed && m->onReadCount != readsBefore) harnessBug("onRead counted on a suspended client without the monitor firing");
+  if (!m->removed && m->suspended) {
+    cnt("suspended_clients_kept_quiet_through_peer_event");
+    if (follow == U_RUN_RESUME) { if (by && !by->removed) peerSend(by, 1 + (long)r.below(16)); pump(); cnt("hangup_second_runs"); }
+    else if (follow == U_WRITE_RESUME) { Op w2 = { K_WRITE, m->id, HS[r.below(5)], 1 }; execOp(m, w2); cnt("writes_while_suspended_after_peer_event"); pump(); }
+  }
+  if (!m->removed && m->suspended && follow != U_LEAVE) {
+    const long rb = m->onReadCount; const u64 pending = m->inSent - m->inRead; const bool closed = m->peerClosed;
+    // every inbound byte arrives when the stream ended in order: the peer shut down / closed without anything unread and the client has not tried to send since
+    // (a send towards a closed TCP peer is answered by a reset, which may discard what has not been read yet)
+    const bool inOrder = ev == E_SHUT_WR || ((ev == E_SHUT_RDWR || ev == E_CLOSE) && m->sendCalls == sendsAtEvent);
+    execOp(m, res); cnt("resumes_after_peer_event");
+    pump();
+    char key[128];
+    if ((pending > 0 || closed) && m->onReadCount == rb) {
+      snprintf(key, sizeof key, "Server.Client.resume/after-peer-%s/no-onRead", ENAME[ev]);
+      fail(key, "client %d was resumed with %llu inbound byte(s) pending%s, the loop went idle, but onRead was not delivered", m->id, (unsigned long long)pending, closed ? " and the end of the stream / a hang-up to report" : "");
+    }
+    if (pending > 0 || closed) cnt("resume_after_peer_event_delivered_onRead");
+    if (closed && !m->removed) fail("Server.Client.onClosed/missing-after-peer-close/resumed", "client %d: the peer went away while the client was suspended, the client was resumed and the loop went idle, but the client was never told", m->id);
+    if (closed && inOrder) {
+      if (m->inRead != m->inSent) {
+        snprintf(key, sizeof key, "Server.Client.read/after-resume/peer-%s/inbound-bytes-lost", ENAME[ev]);
+        fail(key, "client %d: the peer sent %llu byte(s) and then ended the stream in order; after resume the client could read only %llu before it was told that the connection is closed", m->id, (unsigned long long)m->inSent, (unsigned long long)m->inRead);
+      }
+      cnt("resume_after_orderly_close_read_everything");
+    }
+  }
+  if (g_planPos >= g_plan.n) cnt("hangup_plans_fully_consumed");
+  cnt("hangup_cases");
+  u64 fp = mix(g_fp, (u64)idx);
+  endWorld(r);
+  if (idx % 173 == 0) sample("%s", hist.c());
+  endCase(fp, true);
+}
+
 // ---------------------------------------------------------------- random long plans, several clients
 // fresh: client 0 comes out of a listener / an establisher and its accept / connect callback acts on it (accept-rand, accept-kernel); the others are pair clients
 static void randCase(long idx, bool kernel, bool fresh = false) {
@@ -1023,6 +1199,10 @@ int main(int argc, char** argv) {
     long total = (long)NWACT * 2 * 2 * pow5sum(1, L);
     long lo = opts.cases < 0 ? 0 : opts.start, hi = opts.cases < 0 ? total : opts.start + opts.cases;
     for (long idx = lo; idx < hi; ++idx) { if (!mine(idx)) continue; beginCase(idx); drainCase(idx); }
+  } else if (!strcmp(md, "hangup-exh")) {
+    long total = 3L * NPEEREV * NBACK * 2 * 2 * NFOLLOW * L;
+    long lo = opts.cases < 0 ? 0 : opts.start, hi = opts.cases < 0 ? total : opts.start + opts.cases;
+    for (long idx = lo; idx < hi; ++idx) { if (!mine(idx)) continue; beginCase(idx); hangupCase(idx); }
   } else if (!strcmp(md, "accept-exh")) {
     long total = 2L * NFRESH * 3 * pow5sum(1, L);
     long lo = opts.cases < 0 ? 0 : opts.start, hi = opts.cases < 0 ? total : opts.start + opts.cases;
